@@ -130,4 +130,14 @@ theorem printsDms_iff {d m : ℤ} {s : ℚ} {r : PyRes Printed} (h : printsDms d
     obtain ⟨⟨rfl, rfl⟩, rfl⟩ := h; rfl
   · exact absurd h (by simp)
 
+/-- After the carry chain with `n_dec ≥ 0` the seconds field is either 0 (carried) or the rounded seconds. -/
+theorem dms_fields_seconds_form {x : ℚ} {n : ℤ} {d m : ℤ} {s sg : ℚ} (h : deg2dms x = (d, m, s, sg)) (hn : 0 ≤ n) :
+    (dms_fields x n).2.2.1 = 0 ∨ (dms_fields x n).2.2.1 = proundn s n := by
+  unfold dms_fields
+  rw [h]
+  simp only [ge_iff_le, hn, if_true]
+  split_ifs <;> norm_num
+
+theorem proundn_multiple (s : ℚ) (n : ℤ) : ∃ k : ℤ, proundn s n = (k : ℚ) / pow10 n := ⟨_, rfl⟩
+
 end Pymeeus.Refine
